@@ -62,11 +62,32 @@ def fillers(r, n, scope, plain_first=False):
     return out
 
 
+# multi-line units for this check only: lines starting with @@ belong to the unit but not to the offending construct (they are valid on their own),
+# so a diagnostic that wanders to them - a later redeclaration, the statement after a loop - is outside the construct
+EXTRA = [
+    ('F', 'lang', 'struct TIM1 tim1;\n@@int between1;\n@@extern struct TIM1 tim1;\n@@int after1;', 'incomplete type'),
+    ('F', 'lang', 'static int tim2[];\n@@extern int other2;\n@@static int tim2[];\n@@int after2;', 'incomplete type'),
+    ('F', 'lang', '@@extern struct TIM3 tim3;\nstruct TIM3 tim3;\n@@extern struct TIM3 tim3;\n@@int after3;', 'incomplete type'),
+    ('F', 'lang', '@@void lp1(void) {\n@@int i;\nfor (i = 0; i < 3; gci++)\n@@{ gi++; }\n@@gj = 1;\n@@}', 'const'),
+    ('F', 'lang', '@@void lp2(void) {\nfor (gi = 0; gi < 3; --*(const int *)&gj)\n@@gi++;\n@@gj = 1;\n@@}', 'const'),
+    ('F', 'lang', '@@void lp3(void) {\nfor (gi = 0; gi < 3; gs.bf = gd = gp)\n@@{ gi++; }\n@@gj = 1;\n@@}', None),
+    ('F', 'lang', '@@void lp4(void) {\nfor (gi = 0; gi < 3; gi += undeclared_lp4)\n@@{ gi++; }\n@@gj = 1;\n@@}', 'undeclared'),
+    ('F', 'lang', '@@void lp5(void) {\n@@switch (gi) {\n@@case 1: ;\ncase 1:\n@@gj = 2;\n@@break;\n@@}\n@@}', 'case'),
+    ('F', 'lang', '@@void lp6(void) {\ngoto lp6_nowhere;\n@@gj = 2;\n@@gi = 3;\n@@}\n@@int after6;', 'not defined'),
+    ('F', 'lang', '@@int dup7(void) { return 1; }\n@@int mid7;\nint dup7(void) { return 2; }\n@@int after7;', 'redefined'),
+    ('F', 'lang', '@@int obj8 = 1;\n@@int mid8;\nint obj8 = 2;\n@@int after8;', 'redefined'),
+    ('F', 'lang', '@@struct S9 { int a; };\n@@int mid9;\nstruct S9 { int b; };\n@@int after9;', 'redefinition'),
+    ('F', 'lang', '_Static_assert(sizeof(int) == 1);\n@@int after10;', 'static assertion'),
+    ('F', 'lang', 'char *sx11 = "a"\n"\\x100000000"\n"b"\n@@;\n@@int after11;', 'out of range'),
+]
+CATX = list(neg_catalogue.CAT) + EXTRA
+
+
 def program(r, kind, cls, text, nfill):
     """-> list of logical lines; the violation's lines carry role viol"""
     lines = [Line(l, 'filler') for l in neg_catalogue.PRELUDE.strip().split('\n')] + [Line(m, 'directive') for m in MACROS]
     opaque = cls in ('lex', 'dir') or '#' in text or '\\' in text
-    vl = [Line(t, 'viol', opaque or t.lstrip().startswith('#')) for t in text.rstrip('\n').split('\n')]
+    vl = [Line(t[2:], 'filler') if t.startswith('@@') else Line(t, 'viol', opaque or t.lstrip().startswith('#')) for t in text.rstrip('\n').split('\n')]
     if kind == 'F':
         return lines + fillers(r, nfill, 'file') + vl
     if kind in ('D', 'B') and (kind == 'D' or r.random() < 0.5):
@@ -281,7 +302,7 @@ def _exec(exe, d, names, texts, via_stdin):
 def _worker(args):
     """generate, run and judge the cases of one template -> list of records"""
     exe, wd, ti, seed, nvar = args
-    kind, cls, text = neg_catalogue.CAT[ti][:3]
+    kind, cls, text = CATX[ti][:3]
     r = random.Random(seed)
     out = []
     for v in range(nvar):
@@ -315,7 +336,7 @@ def _worker(args):
 
 
 def judge(ti, lines, plain, deco, names, via_stdin, level, ps, dsx):
-    kind, cls, text = neg_catalogue.CAT[ti][:3]
+    kind, cls, text = CATX[ti][:3]
     rec = {'ti': ti, 'cls': cls, 'counts': [], 'text': text}
 
     def viol(key, summary, meta=None):
@@ -403,7 +424,7 @@ def run(tier):
     rng = common.rng(PID)
     wd = common.scratch()
     nvar = 4 if tier == 'quick' else 400
-    work = [(exe, wd, ti, rng.getrandbits(48), nvar) for ti in range(len(neg_catalogue.CAT))]
+    work = [(exe, wd, ti, rng.getrandbits(48), nvar) for ti in range(len(CATX))]
     for lst in common.pmap(_worker, work):
         for rec in lst:
             ck.evaluations += 1
